@@ -1208,11 +1208,11 @@ fn generate_literal(
 ) -> Result<ast::Expression, GenerateError> {
     let lit = match *literal {
         ir::Constant::Bool(v) => ast::Literal::Bool(v),
-        ir::Constant::IntLiteral(v) if v < 0 && -v <= u64::MAX as i128 => {
+        ir::Constant::IntLiteral(v) if v < 0 && v.unsigned_abs() <= u64::MAX as u128 => {
             return Ok(ast::Expression::UnaryOperation(
                 ast::UnaryOp::Minus,
                 Box::new(Located::none(ast::Expression::Literal(
-                    ast::Literal::IntUntyped(-v as u64),
+                    ast::Literal::IntUntyped(v.unsigned_abs() as u64),
                 ))),
             ));
         }
@@ -1224,7 +1224,7 @@ fn generate_literal(
             return Ok(ast::Expression::UnaryOperation(
                 ast::UnaryOp::Minus,
                 Box::new(Located::none(ast::Expression::Literal(
-                    ast::Literal::IntUntyped(-v as u64),
+                    ast::Literal::IntUntyped(u64::from(v.unsigned_abs())),
                 ))),
             ));
         }
